@@ -149,6 +149,27 @@ def gen_code(r, mods, db):
     return " , ".join(parts)
 
 
+# statement shapes: every one READS %(a)s (and %(b)s) unconditionally at module level when executed; helper names
+# (_x, _w, _f ...) are only stored.  After a True result the C07 oracle executes the snippet for real.
+STMT = ["%(a)s += 1", "%(a)s.zq += 1", "%(a)s[0] += 1", "%(a)s[0] = 1", "%(a)s.zq = 1", "del %(a)s.zq", "del %(a)s[0]",
+        "with %(a)s as _w:\n    pass", "with %(a)s, %(b)s as _w:\n    pass", "@%(a)s\ndef _f():\n    pass",
+        "@%(a)s(1)\nclass _K:\n    pass", "_x = f'{%(a)s}'", "_x = f'{%(a)s!r:>{%(b)s}}'", "assert %(a)s, %(b)s",
+        "_x = %(a)s if %(b)s else 0", "for _i in %(a)s:\n    pass", "for _i in ():\n    pass\nelse:\n    %(b)s",
+        "class _K(%(a)s):\n    pass", "class _K:\n    _y = %(a)s", "def _g(_p=%(a)s):\n    pass",
+        "def _g(_p: %(a)s = 0) -> %(b)s:\n    pass", "_x: %(a)s = 1", "_x = [%(a)s for _i in (1,)]", "_x = {%(a)s: %(b)s}",
+        "_x = (%(a)s)(%(b)s)", "_x = %(a)s and %(b)s", "_x = -%(a)s", "_x = %(a)s[%(b)s:]", "_x = [*%(a)s]", "print(%(a)s, file=None)",
+        "while %(a)s:\n    break", "if %(a)s:\n    pass\nelif %(b)s:\n    pass", "_x = lambda _q=%(a)s: _q", "_x = (_y := %(a)s)",
+        "import os as _o\n%(a)s", "raise_ = %(a)s; _x = %(b)s", "%(a)s.zq: int = 1", "%(a)s @= %(b)s", "_x = %(a)s < %(b)s < 3",
+        "try:\n    pass\nfinally:\n    %(a)s", "_x = yield_ = %(a)s", "_x, _z = %(a)s, %(b)s", "_x = await_ = [%(b)s, %(a)s][0]"]
+
+
+def gen_stmt_code(r, mods, db):
+    parts = []
+    for _ in range(r.randint(1, 2)):
+        parts.append(r.choice(STMT) % {"a": pick_name(r, mods, db), "b": pick_name(r, mods, db)})
+    return "\n".join(parts) + r.choice(["", "\n"])
+
+
 BAD_CODE = ["pa.sa +", "(", "pa qa", "import", "pa..sa", "1 +* 2", "def"]
 
 # near-valid forms: an otherwise valid snippet that does not compile only because of its surroundings
@@ -242,8 +263,11 @@ def gen_case(seed, i):
         elif ops and r.random() < .2 and any(o["op"] == "call" for o in ops):
             ops.append(dict(r.choice([o for o in ops if o["op"] == "call"])))      # same code again (same cell or not)
         else:
-            code = gen_code(r, mods, db)
-            if r.random() < .15:
+            if r.random() < .3:
+                code = gen_stmt_code(r, mods, db)
+            else:
+                code = gen_code(r, mods, db)
+            if r.random() < .15 and "\n" not in code:
                 code = r.choice(OK_WRAP) % code
             ops.append({"op": "call", "code": code})
     return {"i": i, "stream": stream, "mods": mods, "db": db, "forget": forget, "nss": nss,
@@ -571,12 +595,19 @@ def exec_probe(code, nss):
         g = {}
         for ns in nss:
             g.update(ns)
+        # statement by statement, so that an AttributeError / TypeError of one statement does not hide the
+        # NameError of the next (the generated statements never read a name another statement stores)
         try:
-            exec(compile(code, "<snippet>", "exec"), g)
-        except NameError as e:
-            return str(e)
-        except BaseException:
+            body = ast.parse(code).body
+        except SyntaxError:
             return None
+        for stmt in body:
+            try:
+                exec(compile(ast.Module(body=[stmt], type_ignores=[]), "<snippet>", "exec"), g)
+            except NameError as e:
+                return "%s (statement %d)" % (e, body.index(stmt))
+            except BaseException:
+                pass
         return None
     return _in_grandchild(fn)
 
@@ -804,6 +835,30 @@ def prefixes(d):
     return [".".join(p[:i]) for i in range(1, len(p) + 1)]
 
 
+def spec_index(case, im):
+    """by_fullname_or_import_as as the property describes it, from the DB text itself: every import under its
+    local name, `import p` under every proper dotted prefix p of a full name; forgotten imports removed, keys
+    without candidate dropped.  (With a forget list the known set is taken as the DB object holds it: how
+    __forget_imports__ composes is C12's subject.)"""
+    known = [list(e) for e in (im["known"] if case.get("forget") else case["db"])]
+    forgotten = [list(e) for e in (im["forgotten"] if case.get("forget") else [])]
+    d = {}
+    for full, as_ in known:
+        d.setdefault(as_, [])
+        if [full, as_] not in d[as_]:
+            d[as_].append([full, as_])
+        for p in prefixes(full)[:-1]:
+            d.setdefault(p, [])
+            if [p, p] not in d[p]:
+                d[p].append([p, p])
+    out = {}
+    for k, v in d.items():
+        v = sorted(e for e in v if e not in forgotten)
+        if v:
+            out[k] = v
+    return out
+
+
 def is_f21(case, step):
     """classifier of known finding F21: AssertionError because a derived key of
     by_fullname_or_import_as kept an empty candidate tuple after __forget_imports__"""
@@ -817,6 +872,33 @@ def is_f07a(case, step):
     submodule files"""
     mods = case["mods"]
     return any(("%s.%s" % (d, a)) in mods for d, m in mods.items() for a in m["attrs"])
+
+
+def attr_store_roots(code):
+    """roots of the attribute chains that are plain store targets (`a.b = v`, `a.b: T = v`, `for a.b in ...`,
+    `with x as a.b`); the target of an augmented assignment is read first and does not count"""
+    roots = set()
+    try:
+        tree = ast.parse(code)
+    except SyntaxError:
+        return roots
+    aug = {id(n.target) for n in ast.walk(tree) if isinstance(n, ast.AugAssign)}
+    for n in ast.walk(tree):
+        if isinstance(n, ast.Attribute) and isinstance(n.ctx, ast.Store) and id(n) not in aug:
+            b = n
+            while isinstance(b, ast.Attribute):
+                b = b.value
+            if isinstance(b, ast.Name):
+                roots.add(b.id)
+    return roots
+
+
+def is_attrstore(code, nameerror):
+    """classifier of C05's open finding F10-attrstore seen through C07: the NameError is for the root of
+    a plain attribute-store target of the snippet (`a.b = v` with `a` unbound is not reported missing)"""
+    import re
+    m = re.match(r"name '([^']+)' is not defined", nameerror or "")
+    return bool(m) and m.group(1) in attr_store_roots(code)
 
 
 def has_dotted_key(case, prev):
@@ -841,7 +923,7 @@ def oracle(ctx, prop, case, im, wfp=False):
     bad = []
     prev = im["init"]
     failed_stmts = set()
-    index = im["index"] if isinstance(im["index"], dict) else {}
+    index = spec_index(case, im)
     for k, (o, st) in enumerate(zip(case["ops"], im["steps"])):
         if o["op"] == "clearfailed":
             failed_stmts = set()
@@ -901,7 +983,9 @@ def oracle(ctx, prop, case, im, wfp=False):
                         bad.append(("failure_atomic", "call %d: %r raised but is not in _IMPORT_FAILED" % (k, stmt)))
         if prop == "C07" and chains is not None:
             if st["r"] is True and st["nameerror"]:
-                if has_dotted_key(case, prev):
+                if is_attrstore(code, st["nameerror"]):
+                    ctx.known_hit("F10-attrstore", "`a.b = v` with `a` unbound: find_missing_imports does not report `a` (open finding of C05), so auto_import returns True and executing raises NameError")
+                elif has_dotted_key(case, prev):
                     ctx.known_hit("F07b", "a namespace holding a dotted key 'a.b' makes a.b 'not need import' while a is unbound: True result, then NameError")
                 else:
                     bad.append(("success_resolves", "call %d: auto_import(%r) returned True but executing it raises NameError: %s" % (k, code, st["nameerror"])))
